@@ -230,19 +230,22 @@ def Row.bareOpens (r : Row) : List String := r.2.2.1
 def Row.forCalls (r : Row) : List String := r.2.2.2.1
 def Row.closeCalls (r : Row) : List String := r.2.2.2.2
 
-/-- the meaning of the context expressions that occur in the source -/
+/-- the meaning of the context expressions that occur in the source.  The translator prints every variable as
+    what it is — `<param>` (supplied by the caller of the function) or `<local>` (bound inside it) — so that
+    renaming a variable does not change the table, while `closing(<param>)` (closing what the caller supplied)
+    stays distinguishable from `closing(<local>)`. -/
 inductive CtxSem
   | openIfPath       -- `open(x) if <x is a path> else nullcontext(x)` (either order)
   | closingWorkbook  -- `closing(openpyxl.load_workbook(path, read_only=True, …))`
-  | closingRows      -- `closing(row_cell_iter)`: the lazy row iterator handed out by read_sheets
+  | closingRows      -- `closing(<local>)` in read_excel: the lazy row iterator handed out by read_sheets
   deriving DecidableEq, Repr
 
 def interpCtx (e : String) : Option CtxSem :=
-  if e = "nullcontext(source) if source_is_stream else open(source)" then some .openIfPath
-  else if e = "open(to, 'w') if isinstance(to, (str, os.PathLike)) else nullcontext(to)" then some .openIfPath
-  else if e = "closing(openpyxl.load_workbook(path, read_only=True, data_only=True, keep_links=False))" then
+  if e = "nullcontext(<param>) if <local> else open(<param>)" then some .openIfPath
+  else if e = "open(<param>, 'w') if isinstance(<param>, (str, os.PathLike)) else nullcontext(<param>)" then some .openIfPath
+  else if e = "closing(openpyxl.load_workbook(<param>, read_only=True, data_only=True, keep_links=False))" then
     some .closingWorkbook
-  else if e = "closing(row_cell_iter)" then some .closingRows
+  else if e = "closing(<local>)" then some .closingRows
   else none
 
 inductive Frame
